@@ -34,6 +34,24 @@ def arc(ctx, n, on_circle=True, first_id=0, beid=0, moved=False):
             return (cx, cy)
         ctx.stub("forsys.virtual_edges:calculate_circle_center", fit,
                  "A-fit: the circle fit returns the centre of the circle the interface points lie on")
+
+        # the same assumed contract one level down, for code that reaches the fitting back ends by another route than
+        # calculate_circle_center (unreached on the current tree, where the stub above intercepts the call)
+        def coords_ok(xs, ys):
+            xs, ys = ctx.list_of(xs), ctx.list_of(ys)
+            ctx.ensure(len(xs) == n and len(ys) == n and ctx.And(*[ctx.And(ctx.close(x, p[0]), ctx.close(y, p[1])) for x, y, p in zip(xs, ys, pts)]),
+                       "the circle is fitted through the interface's points at their current positions")
+
+        def leaf_dlite(it, a, k):
+            coords_ok(a[0], a[1])
+            return [cx, cy]
+
+        def leaf_taubin(it, a, k):
+            pairs = [ctx.list_of(q) for q in ctx.list_of(a[0])]
+            coords_ok([q[0] for q in pairs], [q[1] for q in pairs])
+            return (cx, cy, 1.0, 0.0)
+        ctx.stub("forsys.virtual_edges:dlite_circle_method", leaf_dlite, "A-fit (scipy.optimize.leastsq), same contract at the back end")
+        ctx.stub("circle_fit.taubinSVD", leaf_taubin, "A-fit (circle_fit.taubinSVD), same contract at the back end")
     if moved:
         ox, oy = ctx.real("ox"), ctx.real("oy")
         vs = mk_vertices(ctx, [(p[0] + ox, p[1] + oy) for p in pts], ids=[first_id + i for i in range(n)])
